@@ -9,7 +9,11 @@ spec -> code : QuadratureMC.tla enumerates (i) every integer interval / degree w
                QGauss object (NEST: calls begun inside an integrand, integrands that keep, re-read and
                overwrite the abscissa array they were handed); (vii) every shape x representation an
                integrand may return (RET); (viii) representations of tabulated data (DREP) and of
-               interval end points per entry point (ETYPE).
+               interval end points per entry point (ETYPE); (ix) QGauss2 grids across the 2^20-point boundary
+               with the exact integrals of separable monomials (SCALE; laws of the tensor sum over row blocks
+               checked by TLC); (x) every interleaving of the configure / use steps of concurrent calls on the
+               module-level qgauss() or one shared object (THR), replayed with real threads paused at function
+               boundaries, plus free-running threads behind a barrier.
 code -> spec : what gauleg returned, the rules extracted from the integrators with recording /
                indicator integrands, the call-sequence observations, the tabulated-data results
                and the QGauss2 observations are written as ndjson and judged by
@@ -18,7 +22,10 @@ Python maps lattice cases to esutil calls, evaluates the returned binary64 numbe
 (vh.ratproj_q) against the expectation the specification exported, and records.
 """
 import math
+import os
 import random
+import sys
+import threading
 import warnings
 from fractions import Fraction
 
@@ -34,12 +41,13 @@ NEEDS_EXT = True
 
 NPTS = (2, 3, 5)
 NEST_NPTS = (1, 2, 3)  # point counts of the re-entrant histories (1: broadcasts against everything)
+THR_NPTS = (2, 3)      # point counts of the modelled thread interleavings
 POLY_DEG = 12          # +-1-coefficient polynomials judged exactly by TLC (PolyMoment fits 32 bits)
 NPOLY = 3
 
 BOUNDS = {
-    "quick": dict(AMax=5, KCapX=59, KCapN=59, MaxCalls=3, NMax=4, MaxNestCalls=2, MaxDepth=2),
-    "thorough": dict(AMax=5, KCapX=59, KCapN=59, MaxCalls=4, NMax=6, MaxNestCalls=3, MaxDepth=3),
+    "quick": dict(AMax=5, KCapX=59, KCapN=59, MaxCalls=3, NMax=4, MaxNestCalls=2, MaxDepth=2, NThr=2, ScaleFull=False),
+    "thorough": dict(AMax=5, KCapX=59, KCapN=59, MaxCalls=4, NMax=6, MaxNestCalls=3, MaxDepth=3, NThr=3, ScaleFull=True),
 }
 KCAPN_FULL = 399       # thorough: full degree 2n-1 for every n <= 200 on [-1,1]
 
@@ -50,7 +58,8 @@ _T = {}                # spec tables (filled by load_tables, inherited by forked
 def mc_constants(B, **over):
     c = dict(AMax=B["AMax"], KCapX=B["KCapX"], KCapN=B["KCapN"], NptsSet=set(NPTS), MaxCalls=B["MaxCalls"],
              Kinds={"func", "data"}, Variant="pinned", NMax=B["NMax"], FixedShapes=True, DoExport=False,
-             NestNpts=set(NEST_NPTS), MaxNestCalls=B["MaxNestCalls"], MaxDepth=B["MaxDepth"], NestVariant="local")
+             NestNpts=set(NEST_NPTS), MaxNestCalls=B["MaxNestCalls"], MaxDepth=B["MaxDepth"], NestVariant="local",
+             BlockVariant="ceil", ScaleFull=B["ScaleFull"], NThr=B["NThr"], ThrNpts=set(THR_NPTS), ThrVariant="private")
     c.update(over)
     return c
 
@@ -882,6 +891,284 @@ def obs_ret(args):
     return rec
 
 
+# ---- scale: QGauss2 grids across the 2^20-point boundary -----------------------------------------
+def sep_g(x):
+    return 1.0 / (1.0 + x * x) + 0.5
+
+
+def sep_h(y):
+    return np.abs(y - 0.3) + 1.0
+
+
+def obs_scale_grid(args):
+    """all SCALE cases of one grid on ONE QGauss2 object: x^dj y^dk over integer rectangles, projected onto the exact
+    product of moments the specification exported, and a separable non-polynomial integrand against the product of the
+    two 1-d integrators' results"""
+    rid0, cases = args
+    import esutil.integrate as ei
+    nx, ny = cases[0]["nx"], cases[0]["ny"]
+    out = []
+    q = None
+    err0 = "none"
+    try:
+        with np.errstate(all="ignore"):
+            q = ei.QGauss2(nx, ny)
+    except Exception as e:  # noqa
+        err0 = type(e).__name__
+    for i, c in enumerate(cases):
+        rec = {"k": "scale", "id": rid0 + i, "nx": nx, "ny": ny, "dj": c["dj"], "dk": c["dk"], "ax": c["ax"], "bx": c["bx"], "ay": c["ay"],
+               "by": c["by"], "err": err0, "finite": True, "npts": 0, "ndx": 0, "ndy": 0, "exact": list(rq.OFF), "prod": False, "case": c}
+        out.append(rec)
+        if q is None:
+            continue
+        xr, yr = [float(c["ax"]), float(c["bx"])], [float(c["ay"]), float(c["by"])]
+        st = {"npts": 0, "xs": np.empty(0), "ys": np.empty(0), "calls": 0}
+
+        def f(xg, yg, dj=c["dj"], dk=c["dk"]):
+            xa, ya = np.asarray(xg, dtype="f8"), np.asarray(yg, dtype="f8")
+            st["calls"] += 1
+            st["npts"] += int(np.broadcast(xa, ya).size)
+            st["xs"] = np.union1d(st["xs"], xa.ravel())
+            st["ys"] = np.union1d(st["ys"], ya.ravel())
+            return xa ** dj * ya ** dk
+        try:
+            with np.errstate(all="ignore"), warnings.catch_warnings():
+                warnings.simplefilter("ignore")
+                r = float(q.integrate_func(xr, yr, f))
+                r2 = float(q.integrate_func(xr, yr, lambda xg, yg: sep_g(xg) * sep_h(yg)))
+                gx = float(ei.QGauss(nx).integrate(xr, sep_g))
+                hy = float(ei.QGauss(ny).integrate(yr, sep_h))
+        except Exception as e:  # noqa
+            rec["err"] = type(e).__name__
+            continue
+        rec.update(npts=st["npts"], ndx=int(st["xs"].size), ndy=int(st["ys"].size), calls=st["calls"], result=r, result_sep=r2, marginals=[gx, hy])
+        if not all(math.isfinite(v) for v in (r, r2, gx, hy)):
+            rec["finite"] = False
+            continue
+        ex = Fraction(*c["exact"])
+        area = abs((c["bx"] - c["ax"]) * (c["by"] - c["ay"]))
+        tol = Fraction(area * c["maxp"]) * Fraction(2001, 1000) / c["told"]
+        if Fraction(r) == ex or abs(Fraction(r) - ex) < tol:
+            rec["exact"] = list(c["exact"])
+        # rounding of a sum of nx*ny positive terms, whatever the order of summation
+        rec["prod"] = abs(Fraction(r2) - Fraction(gx) * Fraction(hy)) <= (nx * ny + nx + ny + 16) * Fraction(1, 2 ** 52) * abs(Fraction(gx) * Fraction(hy))
+    return out
+
+
+# ---- threads ------------------------------------------------------------------------------------------
+UTIL_SUFFIX = os.path.join("esutil", "integrate", "util.py")
+THR_BIG = {}
+
+
+def _thr_integrand(x):
+    xa = np.asarray(x, dtype="f8")
+    return 1.0 / (1.0 + xa * xa) + np.abs(xa - 0.3) + 0.5
+
+
+def thr_call(target, shared, kind, arg, slot, big=False):
+    import esutil.integrate as ei
+    if target == "gauleg":
+        x, w = ei.gauleg(*SEQ_IV[slot], arg)
+        return np.concatenate([x, w])
+    if kind == "data":
+        x, y = THR_BIG[slot] if big else SEQ_TAB[slot]
+        if target == "qgauss":
+            return float(ei.qgauss(x.copy(), y.copy(), arg))
+        return float(shared.integrate(x.copy(), y.copy(), npts=arg if arg else None))
+    if target == "qgauss":
+        return float(ei.qgauss(list(SEQ_IV[slot]), _thr_integrand, arg))
+    return float(shared.integrate(list(SEQ_IV[slot]), _thr_integrand, npts=arg if arg else None))
+
+
+def thr_ok(target, kind, slot, r, big=False):
+    """the point counts e for which r is what a fresh object returns sequentially"""
+    allp = sorted(set(NPTS) | set(NEST_NPTS))
+    if target == "gauleg" or big:
+        ref = THR_BIG[("ref", target, kind, slot)]
+        if target == "gauleg":
+            return [e for e in allp if np.shape(r) == np.shape(ref[e]) and np.array_equal(r, ref[e])]
+        return [e for e in allp if close(ref[e], r, n=64)]
+    return [e for e in allp if close(fresh_call(kind, slot, e)[1], r)]
+
+
+def thr_run(target, ctor, sched, pauses):
+    """execute one interleaving with real threads: a `start` event lets thread t run its call up to its pause point (the
+    pauses[t]-th function boundary of esutil/integrate/util.py or of the integrand; beyond the last: to the end), a `finish`
+    event lets it run to the end.  Exactly one thread runs at any time.  returns (events, boundary counts)"""
+    import esutil.integrate as ei
+    shared = ei.QGauss(ctor if ctor else None) if target == "object" else None
+    calls = {ev["t"]: (ev["kind"], ev["arg"]) for ev in sched if ev["op"] == "start"}
+    cond = threading.Condition()
+    state = {t: "idle" for t in calls}
+    go = {t: threading.Semaphore(0) for t in calls}
+    res, nb = {}, {}
+
+    def worker(t):
+        kind, arg = calls[t]
+        go[t].acquire()
+        count, paused = [0], [False]
+
+        def boundary():
+            count[0] += 1
+            if count[0] == pauses.get(t, 0) and not paused[0]:
+                paused[0] = True
+                with cond:
+                    state[t] = "paused"
+                    cond.notify_all()
+                go[t].acquire()
+
+        def local(frame, event, a):
+            if event == "return":
+                boundary()
+            return local
+
+        def glob(frame, event, a):
+            co = frame.f_code
+            if co.co_filename.endswith(UTIL_SUFFIX) or co is _thr_integrand.__code__:
+                boundary()
+                return local
+            return None
+        out = {"err": "none", "r": float("nan")}
+        sys.settrace(glob)
+        try:
+            with np.errstate(all="ignore"), warnings.catch_warnings():
+                warnings.simplefilter("ignore")
+                out["r"] = thr_call(target, shared, kind, arg, t % 4)
+        except Exception as e:  # noqa
+            out["err"] = type(e).__name__
+        finally:
+            sys.settrace(None)
+        res[t], nb[t] = out, count[0]
+        with cond:
+            state[t] = "done"
+            cond.notify_all()
+
+    ths = {t: threading.Thread(target=worker, args=(t,), daemon=True) for t in calls}
+    for th in ths.values():
+        th.start()
+
+    def wait_for(t, wanted):
+        with cond:
+            if not cond.wait_for(lambda: state[t] in wanted, timeout=30):
+                raise MachineryError("thread %d did not reach %s (schedule %s)" % (t, wanted, sched))
+    ev = []
+    for e in sched:
+        t = e["t"]
+        if e["op"] == "start":
+            ev.append({"op": "start", "t": t, "kind": e["kind"], "arg": e["arg"]})
+            go[t].release()
+            wait_for(t, ("paused", "done"))
+        else:
+            if state[t] == "paused":
+                with cond:
+                    state[t] = "running"
+                go[t].release()
+            wait_for(t, ("done",))
+            kind = calls[t][0]
+            r = res[t]["r"]
+            ok = thr_ok(target, kind, t % 4, r) if res[t]["err"] == "none" and math.isfinite(r) else []
+            ev.append({"op": "finish", "t": t, "err": res[t]["err"], "ok": ok, "result": r if math.isfinite(r) else repr(r)})
+    for th in ths.values():
+        th.join(timeout=30)
+    return ev, nb
+
+
+_THR_NB = {}
+
+
+def thr_boundaries(target, kind):
+    """number of pause points of one call (dry sequential run)"""
+    key = (target, kind)
+    if key not in _THR_NB:
+        _, nb = thr_run(target, THR_NPTS[0] if target == "object" else 0,
+                        [{"op": "start", "t": 1, "kind": kind, "arg": THR_NPTS[1]}, {"op": "finish", "t": 1}], {})
+        _THR_NB[key] = max(1, nb[1])
+    return _THR_NB[key]
+
+
+def obs_thr(args):
+    """one exported interleaving (QuadratureMC THR) with pause points drawn for each thread"""
+    rid, c, draw, seed = args
+    rng = random.Random("%s|thr|%d|%d" % (seed, rid, draw))
+    pauses = {}
+    for ev in c["sched"]:
+        if ev["op"] == "start":
+            pauses[ev["t"]] = rng.randint(1, thr_boundaries(c["target"], ev["kind"]))
+    ev, nb = thr_run(c["target"], c["ctor"], c["sched"], pauses)
+    return {"k": "thr", "id": rid, "target": c["target"], "ctor": c["ctor"], "ev": ev, "mode": "stepped", "pauses": pauses, "sched": c["sched"], "draw": draw}
+
+
+def thr_prime():
+    """big tables and the sequential references of the free-running rounds (before forking)"""
+    import esutil.integrate as ei
+    allp = sorted(set(NPTS) | set(NEST_NPTS))
+    for slot in range(4):
+        x, y = SEQ_TAB[slot]
+        xb = np.linspace(x[0], x[-1], 60001)
+        THR_BIG[slot] = (xb, np.interp(xb, x, y) + 0.25 * np.sin(3.0 * xb))
+        with np.errstate(all="ignore"):
+            THR_BIG[("ref", "qgauss", "data", slot)] = THR_BIG[("ref", "object", "data", slot)] = \
+                {e: float(ei.QGauss(e).integrate(THR_BIG[slot][0].copy(), THR_BIG[slot][1].copy())) for e in allp}
+            THR_BIG[("ref", "gauleg", "data", slot)] = THR_BIG[("ref", "gauleg", "func", slot)] = \
+                {e: np.concatenate(ei.gauleg(*SEQ_IV[slot], e)) for e in allp}
+    for t in ("qgauss", "object"):
+        for k in ("func", "data"):
+            thr_boundaries(t, k)
+
+
+def obs_stress(args):
+    """free-running threads behind a barrier: every round each of 4 threads makes one call with its own npts on the module
+    function / the shared object / gauleg; each result is compared with the sequential one.  A mismatch is a violation,
+    agreement proves nothing."""
+    rid0, target, kind, rounds, seed = args
+    import esutil.integrate as ei
+    allp = sorted(set(NPTS) | set(NEST_NPTS))
+    nthr = 4
+    shared = ei.QGauss(allp[0]) if target == "object" else None
+    big = kind == "data" and target != "gauleg"
+    bar = threading.Barrier(nthr)
+    out = [[None] * nthr for _ in range(rounds)]
+
+    def worker(t):
+        for rd in range(rounds):
+            arg = allp[(t + rd) % len(allp)]
+            slot = (t + rd // 7) % 4
+            try:
+                bar.wait(timeout=60)
+            except threading.BrokenBarrierError:
+                return
+            try:
+                with np.errstate(all="ignore"):
+                    r = thr_call(target, shared, kind, arg, slot, big=big)
+                out[rd][t] = (arg, slot, "none", r)
+            except Exception as e:  # noqa
+                out[rd][t] = (arg, slot, type(e).__name__, float("nan"))
+    old = sys.getswitchinterval()
+    sys.setswitchinterval(1e-6)
+    try:
+        ths = [threading.Thread(target=worker, args=(t,), daemon=True) for t in range(nthr)]
+        for th in ths:
+            th.start()
+        for th in ths:
+            th.join(timeout=300)
+            if th.is_alive():
+                bar.abort()
+                raise MachineryError("free-running threads did not finish (%s %s)" % (target, kind))
+    finally:
+        sys.setswitchinterval(old)
+    recs = []
+    for rd in range(rounds):
+        ev = [{"op": "start", "t": t + 1, "kind": kind, "arg": out[rd][t][0]} for t in range(nthr)]
+        for t in range(nthr):
+            arg, slot, err, r = out[rd][t]
+            fin = err == "none" and (target == "gauleg" or math.isfinite(r))
+            ev.append({"op": "finish", "t": t + 1, "err": err, "ok": thr_ok(target, kind, slot, r, big=big) if fin else [],
+                       "result": None if target == "gauleg" else (r if math.isfinite(r) else repr(r))})
+        recs.append({"k": "thr", "id": rid0 + rd, "target": target, "ctor": allp[0] if target == "object" else 0, "ev": ev, "mode": "free", "kind": kind,
+                     "rounds": rounds})
+    return recs
+
+
 # ---- QGauss2 ----------------------------------------------------------------------------------
 TENSOR_IV = [((-1, 1, 0), (0, 2, 0)), ((0, 1, 0), (-3, 1, 0)), ((2, 5, -3), (-1, 1, 4)), ((-5, -2, 0), (1, 3, 0))]
 
@@ -971,6 +1258,11 @@ def obs_tensor(args):
 
 
 # ---- judging -----------------------------------------------------------------------------------
+def json_key(c):
+    import json
+    return json.dumps(c, sort_keys=True)
+
+
 def nclass(n):
     return "n=1" if n == 1 else "n>1"
 
@@ -1005,6 +1297,17 @@ def signature(r, clause):
     if k == "nest":
         cl, _, step = clause.partition("@")
         return "QGauss.integrate(re-entrant)|%s|%s" % (cl, nest_class(r, int(step), cl) if step else "?")
+    if k == "thr":
+        cl, _, step = clause.partition("@")
+        e = r["ev"][int(step) - 1] if step else {}
+        kind = [x["kind"] for x in r["ev"] if x["op"] == "start" and x["t"] == e.get("t")]
+        args = set(x["arg"] for x in r["ev"] if x["op"] == "start")
+        return "%s(threads)|%s|%s,%s,%s" % ({"qgauss": "qgauss", "object": "QGauss.integrate", "gauleg": "gauleg"}[r["target"]], cl,
+                                           kind[0] if kind and r["target"] != "gauleg" else "any", "npts differ" if len(args) > 1 else "same npts",
+                                           "stepped" if r["mode"] == "stepped" else "free-running")
+    if k == "scale":
+        pts = r["nx"] * r["ny"]
+        return "QGauss2|scale:%s|%s" % (clause, "more than 2^20 points" if pts > 2 ** 20 else "up to 2^20 points")
     if k == "seq":
         cl, _, step = clause.partition("@")
         e = r["ev"][int(step) - 1] if step else {"kind": "?", "arg": 0}
@@ -1030,6 +1333,14 @@ def replay_case(r):
                 "values": r["vals"], "observed": {f: r.get(f) for f in ("err", "finite", "val", "cexact", "result", "shape_of_result")}}
     if k == "nest":
         return {"kind": "nest", "rid": r["id0"], "ctor": r["ctor"], "script": r["script"], "observed": r["ev"]}
+    if k == "thr":
+        if r["mode"] == "stepped":
+            return {"kind": "thr", "mode": "stepped", "target": r["target"], "ctor": r["ctor"], "sched": r["sched"],
+                    "pauses": {str(t): p for t, p in r["pauses"].items()}, "observed": r["ev"]}
+        return {"kind": "thr", "mode": "free", "target": r["target"], "thread_kind": r["kind"], "rounds": r["rounds"], "observed": r["ev"]}
+    if k == "scale":
+        return {"kind": "scale", "case": r["case"], "observed": {f: r.get(f) for f in ("err", "finite", "npts", "ndx", "ndy", "calls", "exact", "prod",
+                                                                                        "result", "result_sep", "marginals")}}
     return {"kind": "seq", "rid": r["id"], "ctor": r["ctor"], "calls": [{"kind": e["kind"], "arg": e["arg"]} for e in r["ev"]],
             "observed": r["ev"]}
 
@@ -1039,11 +1350,17 @@ TRACE_FIELDS = {
              "nmom", "cheb", "polys", "lin"),
     "data": ("k", "id", "n", "err", "finite", "val", "tab", "exact", "xrep", "yrep"),
     "tensor": ("k", "id", "nx", "ny", "err", "finite", "npts", "ndx", "ndy", "full", "rank1", "lin"),
+    "scale": ("k", "id", "nx", "ny", "dj", "dk", "ax", "bx", "ay", "by", "err", "finite", "npts", "ndx", "ndy", "exact", "prod"),
     "ret": ("k", "id", "dim", "nx", "ny", "sh", "rep", "err", "finite", "val", "isconst", "cn", "cd", "ax", "bx", "ay", "by", "cexact"),
 }
 
 
+THR_FIELDS = {"start": ("op", "t", "arg"), "finish": ("op", "t", "err", "ok")}
+
+
 def trace_view(r):
+    if r["k"] == "thr":
+        return {"k": "thr", "id": r["id"], "ctor": r["ctor"], "ev": [{f: e[f] for f in THR_FIELDS[e["op"]]} for e in r["ev"]]}
     if r["k"] == "nest":
         return {"k": "nest", "id": r["id"], "ctor": r["ctor"], "ev": [{f: e[f] for f in NEST_FIELDS[e["op"]]} for e in r["ev"]]}
     if r["k"] == "data":
@@ -1176,9 +1493,19 @@ def run(ctx):
                                                      invariants=["NestRefines"]),
                                         workers=1, allow_violation=True, coverage=False),
         "ret": lambda: ctx.tlc("QuadratureMC.tla", what="export returned shapes x representations with their cell maps (RET) + RetLaws; table and end-point representations (DREP, ETYPE)",
-                               cfg_text=cfg(constants=mc_constants(B, DoExport=True), init="InitR", next_="NextRP", invariants=["RetLaws"],
+                               cfg_text=cfg(constants=mc_constants(B, DoExport=True), init="InitR", next_="NextRPB",
+                                            invariants=["RetLaws", "BlockRefines", "BlockLaws"], constraints=["Export"]),
+                               workers=1, require=["ChooseGridR", "ChooseRet", "ChooseDRep", "ChooseEType", "ChooseBlock", "ChooseScale"], timeout=1800),
+        "block_floor": lambda: ctx.tlc("QuadratureMC.tla", what="self-test: a block loop with nrow = ny div nblock leaves rows out (BlockRefines)",
+                                       cfg_text=cfg(constants=mc_constants(B, BlockVariant="floor"), init="InitB", next_="NextB", invariants=["BlockRefines"]),
+                                       workers=1, allow_violation=True, coverage=False),
+        "thr": lambda: ctx.tlc("QuadratureMC.tla", what="threads: private objects behind qgauss() / rule handed back by setup() give the sequential result in every interleaving; export (THR)",
+                               cfg_text=cfg(constants=mc_constants(B, DoExport=True), init="InitH", next_="NextH", invariants=["ThrRefines"],
                                             constraints=["Export"]),
-                               workers=1, require=["ChooseGridR", "ChooseRet", "ChooseDRep", "ChooseEType"], timeout=1800),
+                               workers=1, require=["HConstruct", "HStart", "HFinish"], timeout=1800),
+        "thr_late": lambda: ctx.tlc("QuadratureMC.tla", what="self-test: a shared object whose rule is read after configuring violates ThrRefines",
+                                    cfg_text=cfg(constants=mc_constants(B, ThrVariant="late", NThr=2), init="InitH", next_="NextH", invariants=["ThrRefines"]),
+                                    workers=1, allow_violation=True, coverage=False),
         "tab": lambda: ctx.tlc("QuadratureMC.tla", what="export every small table (TAB) + TableLaws",
                                cfg_text=cfg(constants=mc_constants(B, DoExport=True), init="InitD", next_="NextD", invariants=["TableLaws"],
                                             constraints=["Export"]),
@@ -1198,6 +1525,12 @@ def run(ctx):
     for v in ("nest_reread", "nest_scratch"):
         if "NestRefines" not in res[v].violated:
             raise MachineryError("self-test failed: the deviating integrate_func variant %s does not violate NestRefines" % v)
+    if "BlockRefines" not in res["block_floor"].violated:
+        raise MachineryError("self-test failed: the floor-division block loop does not violate BlockRefines")
+    if "ThrRefines" not in res["thr_late"].violated:
+        raise MachineryError("self-test failed: the late-reading shared object does not violate ThrRefines")
+    scales = res["ret"].records.get("SCALE", [])
+    thrs = res["thr"].records.get("THR", [])
     nkv = res["kv"]
     seqs = res["seq"].records.get("SEQ", [])
     tabs = res["tab"].records.get("TAB", [])
@@ -1209,6 +1542,7 @@ def run(ctx):
         raise MachineryError("representations not exported: %d table, %d end-point cases" % (len(dreps), len(etypes)))
     import esutil.integrate as ei  # noqa  (imported before forking)
     check_fresh_distinct()
+    thr_prime()
     allrecs = []
 
     # 1. gauleg: every n in 1..200 and the interval lattice
@@ -1299,6 +1633,31 @@ def run(ctx):
         ctx.sample({"reentrant_history": {"ctor": deep["ctor"], "script": [[e["op"], e["kind"], e["arg"]] for e in deep["script"]]},
                     "observed": [{f: e[f] for f in NEST_FIELDS[e["op"]]} for e in deep["ev"]]})
         ctx.note(reentrant_histories=len(nests), with_nested_calls=nn)
+    # 3c. threads: every modelled interleaving with real threads (spec -> code), then free-running rounds behind a barrier
+    if part("threads"):
+        if len(thrs) < 50:
+            raise MachineryError("thread interleavings not exported")
+        thrs = sorted(thrs, key=lambda c: json_key(c))
+        draws = 3 if ctx.quick else 2
+        tc = [(i, c, d, ctx.seed) for i, c in enumerate(thrs, 1) for d in range(draws)]
+        cap = 3000 if ctx.quick else 12000
+        if len(tc) > cap:
+            tc = random.Random("%s|thrsample" % ctx.seed).sample(tc, cap)
+        recs = pmap(obs_thr, tc, chunk=32)
+        if not any(len(set(e["t"] for e in r["ev"][:3])) > 1 and r["ev"][1]["op"] == "start" for r in recs):
+            raise MachineryError("no overlapping calls were replayed")
+        rounds = 60 if ctx.quick else 400
+        sc = [(t, k) for t in ("qgauss", "object") for k in ("data", "func")] + [("gauleg", "data")]
+        for j, (t, k) in enumerate(sc):
+            recs += obs_stress((10 ** 6 + j * 10 ** 4, t, k, rounds, ctx.seed))
+        judge(ctx, recs, "judge thread interleavings and free-running rounds (QuadratureTrace)")
+        allrecs += recs
+        ov = [r for r in recs if r["mode"] == "stepped" and r["ev"][1]["op"] == "start"]
+        if ov:
+            ctx.sample({"threads": {"target": ov[0]["target"], "ctor": ov[0]["ctor"], "pause_points": ov[0]["pauses"]},
+                        "observed": [{f: e[f] for f in THR_FIELDS[e["op"]]} for e in ov[0]["ev"]]})
+        ctx.note(thread_interleavings=len(thrs), stepped_thread_runs=len(tc), free_running_rounds=rounds * len(sc),
+                 pause_points_per_call={"%s/%s" % k: v for k, v in sorted(_THR_NB.items())})
     # 3b. what the integrand returns: every broadcastable shape x representation (spec -> code)
     if part("ret"):
         if len(rets) < 100:
@@ -1347,6 +1706,34 @@ def run(ctx):
         if ok:
             ctx.sample({"QGauss2": [ok[-1]["nx"], ok[-1]["ny"]], "observed": {f: ok[-1][f] for f in ("npts", "ndx", "ndy", "full", "rank1", "lin")}})
         ctx.note(tensor_shapes=len(tc))
+    # 5a. scale: grids across the 2^20-point boundary, judged through the exact product of moments and the product of marginals
+    if part("scale"):
+        if len(scales) < 20:
+            raise MachineryError("scale cases not exported")
+        grids = {}
+        for c in sorted(scales, key=lambda c: (c["nx"], c["ny"], c["dj"], c["dk"], c["ax"], c["ay"])):
+            grids.setdefault((c["nx"], c["ny"]), []).append(c)
+        if not any(nx * ny > 2 ** 20 for nx, ny in grids) or not any(nx * ny <= 2 ** 20 for nx, ny in grids):
+            raise MachineryError("scale grids do not straddle 2^20 points")
+        sc, rid0 = [], 1
+        for gi, (g, cs) in enumerate(sorted(grids.items())):
+            if ctx.quick:                                        # covering: every degree pair and every rectangle once per grid
+                degs = sorted(set((c["dj"], c["dk"]) for c in cs))
+                ivs = sorted(set((c["ax"], c["bx"], c["ay"], c["by"]) for c in cs))
+                want = set((d, ivs[(i + gi + ctx.seed) % len(ivs)]) for i, d in enumerate(degs))
+                cs = [c for c in cs if ((c["dj"], c["dk"]), (c["ax"], c["bx"], c["ay"], c["by"])) in want]
+            sc.append((rid0, cs))
+            rid0 += len(cs)
+        out = pmap(obs_scale_grid, sc, nproc=4) if len(sc) >= 64 else [obs_scale_grid(a) for a in sc]
+        recs = [r for o in out for r in o]
+        judge(ctx, recs, "judge QGauss2 grids across 2^20 points (QuadratureTrace)")
+        allrecs += recs
+        big = [r for r in recs if r["nx"] * r["ny"] > 2 ** 20 and r["err"] == "none"]
+        if big:
+            ctx.sample({"QGauss2": [big[0]["nx"], big[0]["ny"]], "integrand": "x^%d y^%d" % (big[0]["dj"], big[0]["dk"]),
+                        "ranges": [big[0]["ax"], big[0]["bx"], big[0]["ay"], big[0]["by"]], "result": big[0].get("result"),
+                        "exact_recorded": big[0]["exact"], "points_evaluated": big[0]["npts"]})
+        ctx.note(scale_grids=len(grids), scale_cases=len(recs))
     # 6. binding self-tests: corrupted observations must be rejected, and a rule that is off by more
     #    than the property's tolerance must be projected to QOff and rejected
     selftest(ctx)
